@@ -3,7 +3,9 @@
 Streams sent to the Lean driver (Driver/C06.lean) and to the real `qcelemental`:
   D  float(text)                      — every tabulated mass string and random decimals (ties `rd64`)
   G  _el2a2mass[sym] min/max          — every element (ties the translator's nuclide list + `elRange`)
-  P  parse_nucleus_label(label)       — grammar-derived labels, near-misses, random strings
+  P  parse_nucleus_label(label)       — grammar-derived labels, near-misses, random strings; the driver answers twice (hand recogniser,
+                                        generic regex engine on the AST regenerated from regex.py) and both must equal CPython: three-way
+  X  re.match/fullmatch/search        — the generic engine on the regenerated NUCLEUS / NUMBER / CHGMULT ASTs vs CPython's re (span + all groups)
   R  reconcile_nucleus(**clues)       — elements/nuclides x clue subsets x perturbations x spellings x settings
   H/C the same calls through the LRU memo model vs the real lru_cache (exact `real` type, eviction)
   R lines are also issued (a) at the edges of every setting: mtol in {0, 0.0, False, 1e-12 .. 2, True} with mass offsets on a
@@ -31,7 +33,8 @@ sys.path.insert(0, str(common.VERIF / "tools"))
 import gen_periodic  # noqa: E402
 
 PROPERTY = "C06"
-LEAN_TARGETS = ["QcelVerif.Props.C06", "QcelVerif.Driver.C06"]
+LEAN_TARGETS = ["QcelVerif.Props.C06", "QcelVerif.Driver.C06", "QcelVerif.Model.RegexEngine", "QcelVerif.Gen.NucleusRegex", "QcelVerif.Model.NucleusRe",
+                "QcelVerif.Lemmas.RegexEngine", "QcelVerif.Lemmas.NucleusRegex", "QcelVerif.Props.C06Regex"]
 DRIVER = "QcelVerif/Driver/C06.lean"
 THEOREMS = [
     ("QcelVerif.Nucleus.reconcile_sound", "ANY table (coherent at its default isotopes), ANY rounding function, ANY range table, ANY input: a successful reconciliation returns a table row (Z,E); every supplied Z / E / label-Z / label-E names Z; A equals every supplied A (argument, label); mass equals float() of every supplied mass (argument, label); A = -1 or E+str(A) is a tabulated nuclide whose mass equals the returned mass or is float-evaluated within mtol of it; unless nonphysical: A = -1 or inside the element's A range and fl(mmin-0.5) <= mass <= fl(mmax+0.5) (nonphysical: A = -1 or >= 1, mass > 0.5); real/ghost equals every real clue by value (argument, label marker), True if there is none; the user tag is the lower-cased label tag ('' if none)"),
@@ -56,21 +59,37 @@ THEOREMS = [
     ("QcelVerif.Nucleus.shipped_elements_default", "table-wide instances [decide +kernel, whole model under rd64 on the generated table]: every element row reconciles from Z alone, from its symbol alone and from its lower-cased symbol as label to (to_A(Z), Z, E, float(to_mass(Z)), True, '')"),
     ("QcelVerif.Nucleus.zero_tolerance_exact", "mtol <= 0 (0, 0.0, False are honoured as given, never replaced by a default), any rounding function that maps no non-zero number to 0: success -> A = -1 or E+str(A) is tabulated with exactly the returned mass"),
     ("QcelVerif.Nucleus.zero_tolerance_conflict", "mtol <= 0: a mass-number clue a and a mass clue m for element z -> error unless E+str(a) is tabulated with exactly the float m (exact-mass matching is not widened)"),
+    ("QcelVerif.Regex.bt_eq_findSome", "generic regex engine, ANY AST / continuation / state: the continuation-passing backtracking matcher returns exactly the first success, in exploration order, of the list-of-successes semantics ms (ordered alternation, greedy/lazy repetition, groups, conditionals, anchors)"),
+    ("QcelVerif.Regex.matchPrefix_eq_head", "re.match of the engine = the first element of ms from the start of the string (any AST, any string)"),
+    ("QcelVerif.Regex.fullMatch_eq_find", "re.fullmatch of the engine = the first element of ms that ends at the end of the string (any AST, any string)"),
+    ("QcelVerif.Regex.ms_le", "ANY AST, state: no way to match moves the cursor backwards"),
+    ("QcelVerif.Regex.ms_lt", "ANY AST that is not (syntactically) nullable: every way to match consumes at least one character"),
+    ("QcelVerif.Regex.rep_fuel_irrelevant", "ANY repetition r{lo,hi} (greedy or lazy) of a non-nullable body, ANY state: the matches computed on the engine's budget (remaining length + 1) equal those on every larger budget — the fuel that makes the engine total never truncates a repetition"),
+    ("QcelVerif.Nucleus.bind_rep1", "greedy [class]+ / [class]{1,n} of the engine followed by any continuation explores exactly the hand recogniser's `runs` (every admissible run length, longest first), for any class, state and string length"),
+    ("QcelVerif.Nucleus.nucleus_shape", "the AST regenerated from regex.py + nucleus.py's compile site is, constructor for constructor, \\A ghost? (label1 | label2) mass? (?(gh2)\\)) \\Z as the hand recogniser's stages spell it (rfl on the generated term: any edit of NUCLEUS or of the flags that changes CPython's parse tree breaks it)"),
+    ("QcelVerif.Nucleus.allMatches_eq_regex", "EVERY byte string: the list of matches the hand recogniser explores (allMatches, with the eight named groups gh1 gh2 A E user1 Z user2 mass) equals, element by element and in order, the list-of-successes semantics of the generated NUCLEUS AST"),
+    ("QcelVerif.Nucleus.matchNucleus_eq_regex", "EVERY byte string: _nucleus.match computed by the generic engine on the generated AST = the hand-written recogniser matchNucleus (same acceptance, same eight groups)"),
+    ("QcelVerif.Nucleus.parseLabel_eq_regex", "EVERY byte string: parse_nucleus_label through the generated regex = the hand model's parseLabel (the function every other C06 theorem is about)"),
+    ("QcelVerif.Nucleus.unparseable_iff_regex", "a label is rejected by the model ('not parseable') iff the generated regex has no way to match it"),
+    ("QcelVerif.Nucleus.generated_wf", "the generated NUCLEUS, NUMBER and CHGMULT ASTs repeat no body that can match the empty string [decide] (the one situation in which the engine's fuel / CPython's empty-iteration rule would matter)"),
     ("QcelVerif.Nucleus.shipped_coherent", "shipped table [decide +kernel over the generated table]: E+str(to_A(Z)) is tabulated with the mass string of Z itself for every element (DefaultCoherent); Z -> symbol -> Z round-trips in strict mode; every nuclide mass string parses and lies within 1/4 u of its mass number"),
 ]
-TRANSLATORS = [gen_periodic.main]
+TRANSLATORS = [gen_periodic.main]  # + gen_nucleus_regex (defined and appended below)
 TRUSTED_BASE = [
     "Lean 4.33 kernel; axioms per theorem audited on every run (subset of propext, Classical.choice, Quot.sound)",
-    "hand-written model Model/Nucleus.lean of nucleus.py:13-437 + regex.py:3-16 (ASCII), tied by differential correspondence on the generated streams (R, P, D, G, H lines)",
+    "hand-written model Model/Nucleus.lean of nucleus.py:13-437 (reconciliation, field extraction of parse_nucleus_label) tied by differential correspondence on the generated streams (R, P, D, G, H lines); its NUCLEUS recogniser is no longer trusted by transcription: it is PROVED equal, on every byte string, to the generic engine run on the AST regenerated from regex.py (matchNucleus_eq_regex)",
+    "harness/c06.py:gen_nucleus_regex + harness/regex_gen.py (translator): reads regex.py (executed from the working tree) and nucleus.py's re.compile call / entry point / groups read (syntax tree), parses the assembled pattern with CPython's re._parser and re-encodes the parse tree constructor by constructor; folds IGNORECASE into ASCII classes (each emitted class cross-checked on all 128 ASCII characters against CPython compiling that node); refuses any construct the engine lacks",
+    "Model/RegexEngine.lean (generic backtracking engine: ordered alternation, greedy/lazy {m,n}, capture = last completed iteration, (?(g)..), anchors) is taken to have CPython `re` semantics on the generated ASTs: checked differentially — P lines three-way (CPython / hand recogniser / engine), X lines re.match / re.fullmatch / re.search with spans and every group on NUCLEUS, NUMBER and CHGMULT — not proved (there is no formal semantics of sre to prove it against); what IS proved: the engine equals its list-of-successes semantics and, for NUCLEUS, the hand recogniser",
     "tools/gen_periodic.py (C01's translator) for the nuclide table; cross-checked by the G lines against periodictable._el2a2mass",
     "CPython float(str), float(int), one IEEE subtraction/addition are taken as correctly rounded (parameter `rd`; the driver's rd64 is checked against float() on every tabulated mass and on random decimals); round(x, 0) as round-half-even",
-    "CPython `re` on the NUCLEUS pattern is modelled by a hand-written recogniser checked differentially (P lines)",
     "functools.lru_cache semantics (hit returns stored object and refreshes, exceptions not stored, LRU eviction at maxsize) modelled by Lru and checked on H lines including eviction",
     "harness/c06.py generators and the Python oracle (reads data/nist_2011_atomic_weights.py itself)",
     "documented defaults of reconcile_nucleus (clues None, speclabel=True, nonphysical=False, mtol=1.0e-3: signature + docstring) are what an omitted option means; numpy's list -> ndarray conversion in validate_and_fill_nuclei keeps every clue equal by value (==)",
 ]
 ASSUMPTIONS = [
-    "ASCII labels and symbols only (CPython's \\w, \\d, [A-Z] with IGNORECASE are Unicode-aware)",
+    "ASCII labels and symbols only (CPython's \\w, \\d, [A-Z] with IGNORECASE are Unicode-aware; the translator restricts classes to ASCII and refuses non-ASCII literals)",
+    "the eight groups parse_nucleus_label reads are taken from the engine's captures as 'participated / did not' (Python tests their truthiness: the same thing as long as a participating group is non-empty, which holds for NUCLEUS — every named group contains a mandatory character; a pattern edit that breaks this shows up as a three-way disagreement on the P lines)",
+    "regex engine: patterns whose repetitions have non-nullable bodies (generated_wf; the translator refuses others, CPython's empty-iteration rule is not modelled); back-references, look-around, atomic/possessive constructs and scoped inline flags are refused by the translator (broken tie), not modelled",
     "A, Z, mass, real, mtol are int | float | bool with integral Z and A (int(1.5) == 1 would 'match' a clue it does not equal); speclabel and nonphysical are real bools (`speclabel is True` makes speclabel=1 behave differently from True although both share a cache key)",
     "mtol >= 0 (with a negative tolerance not even the default isotope is 'within the tolerance'); 0 <= mtol <= 0.25 u in the oracle's feedback clause (mtol = 0 / 0.0 / False included: exact-mass matching): a window wide enough to reach a neighbouring nuclide (e.g. A=2, Z=1, mtol=2 returns A=2 with the mass of H1) is outside the physical meaning of mtol; finite masses",
     "'contradictory clues raise a validation error' is read as: a documented qcelemental error — ValidationError, or NotAnElementError when a clue names no element/nuclide (test_reconcile_nucleus_notanelementerror pins A=80,Z=27 to NotAnElementError)",
@@ -85,7 +104,10 @@ RULE = (
     "non-symbol E (nuclide label, name, digits) | unparseable label} x label spelling (case, @/Gh(/gh(, leading A, _tag/digit tag, @mass) x "
     "speclabel x nonphysical x mtol in {1e-3,1e-4,1e-2,1e-6,0.1,0.125,0.25} x number typing (int/float/bool). quick: every element x 64 subsets + every "
     "nuclide x 3 sampled subsets/variants + sampled conflicts; thorough: every nuclide x 64 subsets + 10x samples. Distinct = encoded input line; "
-    "non-trivial = at least two clue kinds present, or a perturbed clue, or an error outcome. P: grammar-derived labels, single-edit near-misses, random strings. "
+    "non-trivial = at least two clue kinds present, or a perturbed clue, or an error outcome. P: grammar-derived labels, single-edit near-misses, random strings — each judged three ways "
+    "(CPython, hand recogniser, generic engine on the regenerated AST). X: the generic engine vs CPython's re on the regenerated NUMBER and CHGMULT patterns (match / fullmatch / search, span + every group) on "
+    "number-like and 'charge multiplicity'-like strings and near-misses (signs, doubled signs, leading/trailing/doubled dots, exponents with d/D/e/E and bad letters, embedded blanks, tabs, commas, other separators, one-character edits) "
+    "and on a sample of the labels through the raw NUCLEUS pattern (all 14 groups). "
     "Setting edges: nuclide x clue subset containing a mass and/or A clue x mtol in {0, 0.0, False, 1e-12, 1e-9, 1e-6, 1e-5, 1e-4, 1e-3, 1e-2, 0.1, 0.25, 0.3, 0.5, 1, 1.0, True, 2.0} x "
     "mass offset {10^U(-13,0.5) | 1..10 ulp | mtol x {0.5, 0.999, 1, 1.001, 2, 10, 100} | 0} in either direction; falsy clues: one present clue replaced by "
     "0 / 0.0 / False / '' (A, Z, E, mass, label). Call shapes: sampled cases re-issued with options left out where the documented default is meant, 0..9 leading "
@@ -94,12 +116,14 @@ RULE = (
     "siblings that differ only in one setting (mtol / nonphysical / speclabel / verbose / call shape) issued back to back."
 )
 LEVEL_TEXT = (
+    "the label grammar is regenerated from the source on every run (CPython's parse tree of NUCLEUS as compiled in nucleus.py) and the model's recogniser is proved equal to the generic regex engine on that AST for every byte string "
+    "(so an edit of the pattern breaks a proof obligation instead of going unnoticed); that the engine itself behaves like CPython's re is differential only (three-way P lines, X lines on NUMBER/CHGMULT), ASCII only; "
     "proof of soundness/default/conflict/history clauses for the model over any table and any rounding function; feedback (idempotence) proved in full "
     "when a mass clue was supplied and otherwise only *partially* (self-consistency hypothesis; a kernel-checked counter-example shows it fails for wide windows); model tied to the code by "
     "sampled + per-table-exhaustive differential correspondence, so the tie is evidence, not proof; settings are explored at their edges (mtol = 0 proved exact "
     "for the model and sampled on the code), omitted options are tied to the documented defaults and the array entry points to the scalar one by sampling only"
 )
-TECHNIQUE = "Lean 4 proof (structural: first-passing-candidate inversion, LRU invariant by induction over histories) + differential correspondence + Python oracle"
+TECHNIQUE = "Lean 4 proof (structural: first-passing-candidate inversion, LRU invariant by induction over histories, regex engine = list semantics = hand recogniser by stage-wise symbolic evaluation of the generated AST) + translator from CPython's regex parse tree + differential correspondence + Python oracle"
 
 MTOLS = [1.0e-3, 1.0e-3, 1.0e-3, 1.0e-4, 1.0e-2, 1.0e-6, 0.1, 0.125, 0.25]
 BAND = Fraction(1, 10**9)
@@ -107,6 +131,152 @@ BAND = Fraction(1, 10**9)
 MTOLS_EDGE = [0, 0.0, False, 0, 0.0, 1.0e-12, 1.0e-9, 1.0e-6, 1.0e-5, 1.0e-4, 1.0e-3, 1.0e-2, 0.1, 0.25, 0.3, 0.5, 1, 1.0, True, 2.0]
 OFF_KINDS = ["logu", "logu", "logu", "ulp", "kmtol", "kmtol", "1e-4", "mtol", "mtol-ulp", "mtol+ulp", "exact"]
 DOC_DEFAULTS = {"A": None, "Z": None, "E": None, "mass": None, "real": None, "label": None, "speclabel": True, "nonphysical": False, "mtol": 1.0e-3}
+
+# ----------------------------------------------------------------------------------------
+# translator: the NUCLEUS grammar (and NUMBER / CHGMULT) from /repo's regex.py + nucleus.py -> Gen/NucleusRegex.lean
+
+NUCLEUS_GROUPS_MODELLED = ["gh1", "gh2", "A", "E", "user1", "Z", "user2", "mass"]  # the fields of Lean's `Nucleus.Groups`
+
+
+class TieBroken(Exception):
+    pass
+
+
+def regex_namespace():
+    """the names regex.py defines (it imports nothing), executed from common.REPO's working tree, never cached"""
+    import runpy
+
+    return runpy.run_path(str(common.REPO / "qcelemental/molparse/regex.py"))
+
+
+def _eval_str(node, names):
+    """string expression made of literals, regex.py names and `+` (what re.compile is given in nucleus.py)"""
+    import ast
+
+    if isinstance(node, ast.Constant) and isinstance(node.value, str):
+        return node.value
+    if isinstance(node, ast.Name) and isinstance(names.get(node.id), str):
+        return names[node.id]
+    if isinstance(node, ast.BinOp) and isinstance(node.op, ast.Add):
+        return _eval_str(node.left, names) + _eval_str(node.right, names)
+    raise TieBroken(f"nucleus.py builds the pattern from an expression the translator does not evaluate: {ast.dump(node)[:120]}")
+
+
+def _eval_flags(node):
+    import ast
+    import re
+
+    if isinstance(node, ast.Attribute) and isinstance(node.value, ast.Name) and node.value.id == "re" and isinstance(getattr(re, node.attr, None), re.RegexFlag):
+        return int(getattr(re, node.attr))
+    if isinstance(node, ast.BinOp) and isinstance(node.op, ast.BitOr):
+        return _eval_flags(node.left) | _eval_flags(node.right)
+    raise TieBroken(f"nucleus.py passes flags the translator does not evaluate: {ast.dump(node)[:120]}")
+
+
+def nucleus_compile_site():
+    """How nucleus.py compiles and uses NUCLEUS, read from its syntax tree:
+    -> (pattern string, flags, line number, variable, entry point called on it, group names read from the match)"""
+    import ast
+
+    src = (common.REPO / "qcelemental/molparse/nucleus.py").read_text()
+    tree = ast.parse(src)
+    names = regex_namespace()
+    imported = set()
+    for n in ast.walk(tree):
+        if isinstance(n, ast.ImportFrom) and n.module == "regex" and n.level == 1:
+            imported |= {a.name for a in n.names if a.asname is None}
+    sites = []
+    for n in tree.body:
+        if (isinstance(n, ast.Assign) and len(n.targets) == 1 and isinstance(n.targets[0], ast.Name) and isinstance(n.value, ast.Call)
+                and isinstance(n.value.func, ast.Attribute) and n.value.func.attr == "compile"
+                and isinstance(n.value.func.value, ast.Name) and n.value.func.value.id == "re"):
+            sites.append(n)
+    if len(sites) != 1:
+        raise TieBroken(f"expected exactly one module-level re.compile in nucleus.py, found {len(sites)}")
+    call = sites[0].value
+    if call.keywords or not (1 <= len(call.args) <= 2):
+        raise TieBroken("re.compile call shape in nucleus.py changed")
+    pattern = _eval_str(call.args[0], {k: v for k, v in names.items() if k in imported})
+    flags = _eval_flags(call.args[1]) if len(call.args) == 2 else 0
+    var = sites[0].targets[0].id
+    fn = next((f for f in tree.body if isinstance(f, ast.FunctionDef) and f.name == "parse_nucleus_label"), None)
+    if fn is None:
+        raise TieBroken("parse_nucleus_label not found in nucleus.py")
+    entry, mvars = set(), set()
+    for n in ast.walk(tree):
+        if isinstance(n, ast.Attribute) and isinstance(n.value, ast.Name) and n.value.id == var:
+            entry.add(n.attr)
+    for n in ast.walk(fn):
+        if (isinstance(n, ast.Assign) and isinstance(n.value, ast.Call) and isinstance(n.value.func, ast.Attribute)
+                and isinstance(n.value.func.value, ast.Name) and n.value.func.value.id == var and len(n.targets) == 1 and isinstance(n.targets[0], ast.Name)):
+            mvars.add(n.targets[0].id)
+    if entry != {"match"}:
+        raise TieBroken(f"{var} is used through {sorted(entry)}, the model covers exactly {var}.match(label)")
+    read = []
+    for n in ast.walk(fn):
+        if isinstance(n, ast.Attribute) and isinstance(n.value, ast.Name) and n.value.id in mvars and n.attr != "group":
+            raise TieBroken(f"parse_nucleus_label reads the match through .{n.attr}, only .group(name) is modelled")
+        if (isinstance(n, ast.Call) and isinstance(n.func, ast.Attribute) and n.func.attr == "group" and isinstance(n.func.value, ast.Name) and n.func.value.id in mvars):
+            if len(n.args) != 1 or not isinstance(n.args[0], ast.Constant) or not isinstance(n.args[0].value, str):
+                raise TieBroken("parse_nucleus_label reads a group by something other than one literal name")
+            if n.args[0].value not in read:
+                read.append(n.args[0].value)
+    return pattern, flags, sites[0].lineno, var, "match", read
+
+
+def regex_sources():
+    """-> {'nucleus': (pattern, flags), 'number': …, 'chgmult': …} as the library compiles them"""
+    import re
+
+    ns = regex_namespace()
+    pattern, flags, _, _, _, _ = nucleus_compile_site()
+    for k in ("NUMBER", "CHGMULT"):
+        if not isinstance(ns.get(k), str):
+            raise TieBroken(f"regex.py no longer defines the string {k}")
+    return {"nucleus": (pattern, flags), "number": (ns["NUMBER"], int(re.VERBOSE)), "chgmult": (ns["CHGMULT"], int(re.VERBOSE))}
+
+
+def gen_nucleus_regex(ctx=None) -> None:
+    """lean/QcelVerif/Gen/NucleusRegex.lean <- qcelemental/molparse/regex.py (NUCLEUS, NUMBER, CHGMULT) as compiled in
+    nucleus.py (`re.compile(r"\\A" + NUCLEUS + r"\\Z", re.IGNORECASE | re.VERBOSE)`, `.match`, groups read by name)."""
+    import re
+
+    import regex_gen
+
+    pattern, flags, lineno, var, entry, read = nucleus_compile_site()
+    ns = regex_namespace()
+    tr = regex_gen.translate(pattern, flags)
+    missing = [g for g in read if g not in tr.groupdict]
+    if missing:
+        raise TieBroken(f"parse_nucleus_label reads group(s) {missing} that the pattern does not define")
+    if sorted(read) != sorted(NUCLEUS_GROUPS_MODELLED):
+        raise TieBroken(f"parse_nucleus_label reads groups {read}; the Lean model's Groups structure covers {NUCLEUS_GROUPS_MODELLED}")
+    trn = regex_gen.translate(ns["NUMBER"], re.VERBOSE)
+    trc = regex_gen.translate(ns["CHGMULT"], re.VERBOSE)
+    lines = [
+        "import QcelVerif.Model.RegexEngine",
+        "/-! GENERATED by harness/c06.py:gen_nucleus_regex from qcelemental/molparse/regex.py and the compile site in",
+        f"qcelemental/molparse/nucleus.py (line {lineno}: `{var} = re.compile(…, {re.RegexFlag(flags)!s})`, used through `{var}.{entry}`;",
+        f"groups read by parse_nucleus_label: {', '.join(read)}) — do not edit.",
+        "Each term is CPython's own parse tree (`re._parser.parse`) of the pattern, re-encoded constructor by constructor;",
+        "IGNORECASE is folded into the classes (ASCII), `\\d \\w \\s` are the ASCII parts of the categories. -/",
+        "namespace QcelVerif.Gen.NucleusRegex",
+        "open QcelVerif.Regex",
+        "",
+    ]
+    lines += regex_gen.lean_defs("nucleus", tr, f"`\\A` NUCLEUS `\\Z` under {re.RegexFlag(flags)!s} (nucleus.py:{lineno})")
+    lines += regex_gen.lean_defs("number", trn, "NUMBER under re.VERBOSE (regex.py; used inside from_string.py's line patterns)")
+    lines += regex_gen.lean_defs("chgmult", trc, "CHGMULT = (?P<chg>NUMBER) SEP (?P<mult>\\d+) under re.VERBOSE")
+    lines.append("end QcelVerif.Gen.NucleusRegex")
+    body = "\n".join(lines) + "\n"
+    f = common.LEAN / "QcelVerif" / "Gen" / "NucleusRegex.lean"
+    f.parent.mkdir(exist_ok=True)
+    if not f.exists() or f.read_text() != body:
+        f.write_text(body)
+
+
+TRANSLATORS.append(gen_nucleus_regex)
+
 
 # ----------------------------------------------------------------------------------------
 # independent view of the table (read from the data file, not through periodic_table.py)
@@ -1097,6 +1267,126 @@ def canon_parse_model(line: str) -> str:
     return " ".join(p)
 
 
+def check_P(out: Outcome, label: str, ml, count=True):
+    """three-way: CPython's parse_nucleus_label vs the hand recogniser vs the generic engine on the regenerated AST
+    (driver answer `<hand> # <engine>`), plus the independent grammar oracle on the implementation's answer"""
+    res = impl_parse(label)
+    ci = canon_parse(res)
+    out.evaluations += 1
+    case = {"op": "P", "label": label}
+    if count:
+        out.count("stream:parse")
+        out.count("parse:" + ("ok" if res[0] == "ok" else ci))
+        out.nontrivial("P " + label)
+    ref = ref_parse(label)
+    if (ref is None) != (res[0] == "err") or (ref is not None and res[0] == "ok" and
+                                              (ref[0], ref[1], ref[2], None if ref[3] is None else float(ref[3]), ref[4], ref[5]) != tuple(res[1])):
+        out.violations.append(Finding("oracle:label_fields", case, observed=ci, expected=repr(ref),
+                                      detail="parse_nucleus_label disagrees with the documented NUCLEUS grammar (independent recogniser)"))
+    if res[0] == "err" and not res[1].startswith("err Validation"):
+        out.violations.append(Finding("oracle:error_class", case, observed=ci, detail="unparseable label must be a ValidationError"))
+    if ml is None:
+        return
+    hand, sep, eng = ml.partition(" # ")
+    if not sep:
+        out.mismatches.append(Finding("mismatch:parse_regex", case, observed=ci, expected=ml, detail="the driver did not answer with both recognisers"))
+        return
+    if canon_parse_model(hand) != ci:
+        out.mismatches.append(Finding("mismatch:parse", case, observed=ci, expected=hand, detail="parse_nucleus_label vs Lean hand recogniser"))
+    if canon_parse_model(eng) != ci:
+        out.mismatches.append(Finding("mismatch:parse_regex", case, observed=ci, expected=eng,
+                                      detail="parse_nucleus_label vs the generic regex engine on the NUCLEUS AST regenerated from regex.py"))
+    if hand != eng:
+        out.mismatches.append(Finding("mismatch:hand_vs_regex", case, observed=eng, expected=hand,
+                                      detail="Lean hand recogniser vs generic engine on the regenerated NUCLEUS AST (theorem matchNucleus_eq_regex no longer describes the source)"))
+    elif count:
+        out.count("parse_three_way_agree")
+
+
+_COMPILED = {}
+
+
+def compiled_pattern(name):
+    """CPython's compilation of the very (pattern, flags) the translator emitted"""
+    import re
+
+    if name not in _COMPILED:
+        pattern, flags = regex_sources()[name]
+        _COMPILED[name] = re.compile(pattern, flags)
+    return _COMPILED[name]
+
+
+def check_X(out: Outcome, payload, ml, count=True):
+    """generic engine on a generated pattern vs CPython's re on the same pattern: match / fullmatch / search, span and
+    every group (named or not)"""
+    import regex_gen
+
+    name, mode, text = payload
+    exp = regex_gen.cpython_eval(compiled_pattern(name), mode, text)
+    out.evaluations += 1
+    if count:
+        out.count(f"stream:regex:{name}")
+        out.count(f"regex:{name}:{mode}:" + ("match" if exp != "none" else "none"))
+        out.nontrivial(f"X {name} {mode} {text}")
+    if ml is not None and ml != exp:
+        out.mismatches.append(Finding("mismatch:regex_engine", {"op": "X", "name": name, "mode": mode, "text": text}, observed=exp, expected=ml,
+                                      detail=f"CPython re.{ {'m': 'match', 'f': 'fullmatch', 's': 'search'}[mode] } on {name.upper()} vs the Lean engine on the generated AST"))
+
+
+def gen_regex_texts(ctx: Ctx, labels):
+    """(pattern name, mode, text): number-like and chgmult-like strings and near-misses (signs, leading/trailing dots,
+    exponents with d/D/e/E, embedded blanks, separators), plus a sample of the labels through the raw NUCLEUS pattern"""
+    rng = ctx.rng
+    fixed = ["", ".", "+", "-", "1", "-1", "+1.", ".5", "-.5e3", "1e5", "1E5", "1d5", "1D-5", "1.e", "1.5e", "1.5e+", "1.5e+3", "1e5.3", "..5", "1..5",
+             "+-1", "1 .5", " 1", "1 ", "1,2", "0 1", "-0.0 3", "1.5\t\t2", "1.5,2", "1.5 , 2", "1.5 2a", "1.5 2 3", "1.5e3 12", "1d5 1", "1\n", "1 2\n",
+             "1.d", ".e5", "e5", "1e", "1ee5", "1e5e5", "- 1", "1.5D+02", "+.5d-2 7", "12.", "12. 3", ".5.5", "1 2", "1\t2", "1,,2", "1 ,\t 2", "1;2", "12",
+             "0x10", "1_000", "1.0 1.0", "-1 -1", "1 +1", "abc 1.5 2", "x1", "1.5x"]
+    texts = list(fixed)
+
+    def number():
+        sign = rng.choice(["", "", "+", "-", "+-", " "])
+        ip = "".join(rng.choice("0123456789") for _ in range(rng.choice([0, 1, 1, 2, 4])))
+        dot = rng.choice(["", ".", ".", ".."]) if rng.random() < 0.7 else ""
+        fp = "".join(rng.choice("0123456789") for _ in range(rng.choice([0, 0, 1, 3])))
+        ex = ""
+        if rng.random() < 0.5:
+            ex = rng.choice("eEdDeEdDxf") + rng.choice(["", "", "+", "-", "+-"]) + "".join(rng.choice("0123456789") for _ in range(rng.choice([0, 1, 2])))
+        return sign + ip + dot + fp + ex
+
+    def perturb(t):
+        alphabet = " \t,.+-eEdD0123456789a\n"
+        if t and rng.random() < 0.5:
+            i = rng.randrange(len(t) + 1)
+            k = rng.random()
+            if k < 0.4:
+                return t[:i] + rng.choice(alphabet) + t[i:]
+            if k < 0.7 and i < len(t):
+                return t[:i] + t[i + 1:]
+            if i < len(t):
+                return t[:i] + rng.choice(alphabet) + t[i + 1:]
+        return t
+
+    for _ in range(ctx.scale(2500, 25000)):
+        n = number()
+        texts.append(perturb(n))
+        if rng.random() < 0.6:
+            sep = rng.choice([" ", " ", ",", "\t", " , ", "", "  ", ";", ", ", " ,\t"])
+            mult = rng.choice(["1", "2", "1", "3", "12", "003", "", "1.0", "-1", "a", "1 ", "3\n"])
+            texts.append(perturb(rng.choice(["", "", "", "x", " "]) + n + sep + mult))
+        if rng.random() < 0.35:  # well-formed 'charge multiplicity' lines, then one edit
+            chg = rng.choice(["", "+", "-"]) + rng.choice(["0", "1", "2", "1.", "1.0", ".5", "0.0", "2e0", "1D0", "10"])
+            t = chg + rng.choice([" ", "  ", ",", "\t", ", ", " , "]) + str(rng.choice([1, 1, 2, 3, 4, 11]))
+            texts.append(t if rng.random() < 0.6 else perturb(t))
+    out = []
+    for t in texts:
+        for name in ("number", "chgmult"):
+            for mode in ("m", "f", "s"):
+                out.append((name, mode, t))
+    for l in rng.sample(labels, min(len(labels), ctx.scale(1500, 15000))) + labels[:70]:
+        out.append(("nucleus", rng.choice("mfs"), l))
+    return out
+
+
 # ----------------------------------------------------------------------------------------
 
 
@@ -1264,6 +1554,17 @@ def run(ctx: Ctx) -> Outcome:
     for c in cases:
         lines.append("R " + enc_case(c))
         checks.append(("R", c, None))
+    # ---- added after the streams above (which keep their random sequence): the generic engine on the generated patterns
+    xs = gen_regex_texts(ctx, labels)
+    try:
+        for name in ("nucleus", "number", "chgmult"):
+            compiled_pattern(name)
+    except Exception as e:  # noqa — the compile site / regex.py cannot be read as the translator expects: that tie is already reported broken by the translator
+        out.notes.append(f"X stream skipped: the patterns cannot be re-read from the source ({type(e).__name__}: {e})")
+        xs = []
+    for name, mode, t in xs:
+        lines.append(f"X {name} {mode} {hexs(t)}")
+        checks.append(("regex", (name, mode, t), None))
     model = [None] * len(lines)
     if ctx.model_available:
         model = ctx.run_model(DRIVER, lines)
@@ -1277,21 +1578,9 @@ def run(ctx: Ctx) -> Outcome:
                 out.mismatches.append(Finding("mismatch:" + kind, {"op": kind, "arg": payload}, observed=exp, expected=ml,
                                               detail="CPython float()/_el2a2mass vs Lean rd64/elRange"))
         elif kind == "parse":
-            res = impl_parse(payload)
-            ci = canon_parse(res)
-            out.evaluations += 1
-            out.count("stream:parse")
-            out.count("parse:" + ("ok" if res[0] == "ok" else ci))
-            out.nontrivial("P " + payload)
-            ref = ref_parse(payload)
-            if (ref is None) != (res[0] == "err") or (ref is not None and res[0] == "ok" and
-                                                      (ref[0], ref[1], ref[2], None if ref[3] is None else float(ref[3]), ref[4], ref[5]) != tuple(res[1])):
-                out.violations.append(Finding("oracle:label_fields", {"op": "P", "label": payload}, observed=ci, expected=repr(ref),
-                                              detail="parse_nucleus_label disagrees with the documented NUCLEUS grammar (independent recogniser)"))
-            if res[0] == "err" and not res[1].startswith("err Validation"):
-                out.violations.append(Finding("oracle:error_class", {"op": "P", "label": payload}, observed=ci, detail="unparseable label must be a ValidationError"))
-            if ml is not None and canon_parse_model(ml) != ci:
-                out.mismatches.append(Finding("mismatch:parse", {"op": "P", "label": payload}, observed=ci, expected=ml, detail="parse_nucleus_label vs Lean recogniser"))
+            check_P(out, payload, ml)
+        elif kind == "regex":
+            check_X(out, payload, ml)
         else:
             check_R(ctx, out, payload, ml)
             if ml is not None:
@@ -1301,7 +1590,7 @@ def run(ctx: Ctx) -> Outcome:
     out.exhaustive = False
     out.notes.append(
         f"R cases: {len(cases)} (every element x 64 clue subsets; every nuclide x {'64' if ctx.thorough else '3'} subsets + perturbed variants; sampled mixture); "
-        f"P labels: {len(labels)}; D floats: every tabulated mass string + random decimals; G: all {len(T.E)} elements; "
+        f"P labels: {len(labels)} (three-way: CPython / hand recogniser / generic engine on the regenerated AST); X engine-vs-CPython lines: {len(xs)}; D floats: every tabulated mass string + random decimals; G: all {len(T.E)} elements; "
         f"of the R cases {sum(1 for c in cases if c['mtol'] == 0)} at mtol = 0 (0 / 0.0 / False), {sum(1 for c in cases if c['mtol'] > 0.25)} at mtol > 0.25, "
         f"{sum(1 for c in cases if str(c.get('variant', '')).startswith('falsy'))} with a falsy clue, {sum(1 for c in cases if 'call' in c)} in another call shape"
     )
@@ -1319,15 +1608,11 @@ def replay(ctx: Ctx, case) -> Outcome:
     elif op == "P":
         l = case["label"]
         ml = ctx.run_model(DRIVER, ["P " + hexs(l)])[0] if ctx.model_available else None
-        res = impl_parse(l)
-        ci = canon_parse(res)
-        out.evaluations += 1
-        ref = ref_parse(l)
-        if (ref is None) != (res[0] == "err") or (ref is not None and res[0] == "ok" and
-                                                  (ref[0], ref[1], ref[2], None if ref[3] is None else float(ref[3]), ref[4], ref[5]) != tuple(res[1])):
-            out.violations.append(Finding("oracle:label_fields", case, observed=ci, expected=repr(ref), detail="parse_nucleus_label disagrees with the NUCLEUS grammar"))
-        if ml is not None and canon_parse_model(ml) != ci:
-            out.mismatches.append(Finding("mismatch:parse", case, observed=ci, expected=ml))
+        check_P(out, l, ml, count=False)
+    elif op == "X":
+        payload = (case["name"], case["mode"], case["text"])
+        ml = ctx.run_model(DRIVER, [f"X {payload[0]} {payload[1]} {hexs(payload[2])}"])[0] if ctx.model_available else None
+        check_X(out, payload, ml, count=False)
     elif op == "HIST":
         rn = _rn()
         calls = [case_unjson(j) for j in case["calls"]]
